@@ -759,7 +759,13 @@ class XlsxRowWriter(AbstractRowWriter):
             if isinstance(item, str):
                 # Write strings as explicit strings to prevent strings starting with '=' from being converted to
                 # formulas.
-                self.worksheet.write_string(row_index, column_index, item)
+                if self.worksheet.write_string(row_index, column_index, item) != 0:
+                    # xlsxwriter silently cuts off strings that are too long and ignores cells outside the sheet.
+                    raise errors.DataFormatError(
+                        "item with %d characters must fit into an Excel cell: at most 32767 characters, "
+                        "1048576 rows and 16384 columns" % len(item),
+                        self.location,
+                    )
             else:
                 self.worksheet.write(row_index, column_index, item)
             self.location.advance_cell()
